@@ -418,6 +418,10 @@ def _scale_to_smaller(
 
     other = to_prefixed(other)
     smaller = me.prefix if me.prefix.value < other.prefix.value else other.prefix
+    if smaller.value > 0:
+        # Comparisons round to `EPSILON` decimal places of what we return: of the values themselves at most, not of
+        # mantissas at larger prefixes, where that many places are a coarser tolerance. (4000 is not 0, however it is written.)
+        smaller = Prefix.UNIT
     return me.scale(smaller), other.scale(smaller)
 
 
